@@ -99,6 +99,7 @@ def run(ctx):
     # stores into matched_blocks values elsewhere: only Peers functions
     # ---- r4 body commitment ------------------------------------------------------------------
     body_commitment(ctx)
+    proved_data_provenance(ctx)
 
 
 def base_of(txt):
@@ -207,3 +208,31 @@ def find_commitment_guards(ctx, R, pats):
                 if ok:
                     out.append((k, hacc, 'helper %s (summarised: succeeds only if %s matches)' % (k, pats[0])))
     return out
+
+
+def proved_data_provenance(ctx):
+    """r5: what is marked proved / requested for download / persisted derives from the VERIFIED response data (the headers that
+    went through the PoW and MMR checks, the filtered blocks that went through the Merkle check) — never from the request, whose
+    hashes also include the ones the peer reported missing."""
+    P = ctx.prog
+    F = ctx.body(BP)
+    du = DefUse(F)
+
+    def calls(x):
+        return {o[1] for o in du.origins(x, stop_at_calls=False) if o[0] == 'call'}
+    for fn, argi, what in (('Peers::mark_matched_blocks_proved', 2, 'hashes marked proved'),
+                           ('Peers::update_blocks_request', 2, 'hashes requested for download'),
+                           ('Storage::add_fetched_header', 1, 'header persisted as fetched')):
+        for b, t in P.call_sites(F, fn):
+            cs = calls(t.args[argi])
+            from_resp = any(k.endswith('Reader::headers') or k.endswith('SendBlocksProofReader::headers') for k in cs)
+            from_req = any(k.endswith('BlocksProofRequest::block_hashes') for k in cs)
+            ctx.ob('C02.r5', F.name, '%s derive from the verified response headers, not from the request' % what, from_resp and not from_req, at=t.span,
+                   from_response_headers=from_resp, from_request=from_req)
+    T = ctx.body(TP)
+    tdu = DefUse(T)
+    for b, t in P.call_sites(T, 'Storage::add_fetched_tx'):
+        cs = {o[1] for a in t.args[1:] for o in tdu.origins(a, stop_at_calls=False) if o[0] == 'call'}
+        from_resp = any(k.endswith('Reader::filtered_blocks') for k in cs)
+        from_req = any(k.endswith('TransactionsProofRequest::tx_hashes') for k in cs)
+        ctx.ob('C02.r5', T.name, 'the persisted transaction and header derive from the verified filtered blocks, not from the request', from_resp and not from_req, at=t.span)
